@@ -80,6 +80,9 @@ def gen_table(rnd, dynamics, allow=None, nprocs=None, maxtime=None, maxacts=3, s
             sa = [a for a in allow if a in ('post', 'unpost', 'query', 'postpast', 'peek')] or ['post']
             setup = gen_actions(rnd, -1, nprogs, nloci, sa + ['postrep'], maxacts=3)
         procs.append({'events': evs, 'setup': setup})
+    if nprocs >= 2 and rnd.random() < 0.35:
+        # one component with a shorter maximum time of its own (the sequence still runs to the longest)
+        procs[rnd.randrange(nprocs)]['maxfrac'] = rnd.choice([0.25, 0.5])
     pallow = allow + (['postrep'] if rep_in_progs else [])
     progs = [gen_actions(rnd, k, nprogs, nloci, pallow, maxacts=maxacts) for k in range(nprogs)]
     if maxtime is None:
@@ -93,7 +96,8 @@ def run_case(case):
     from epydemic import Dynamics, SynchronousDynamics
     g = networkx.path_graph(3)
     orc = Oracle(seed=case.get('seed', 0), script=case.get('script'))
-    rec, rc, exc = kscript.run_table(case['table'], case['dynamics'], g, orc, prerun=case.get('prerun') or False)
+    rec, rc, exc = kscript.run_table(case['table'], case['dynamics'], g, orc, prerun=case.get('prerun') or False,
+                                      abort_first=case.get('abort_first', case.get('seed', 0) % 5 == 0))
     md = (rc or {}).get(epyc.Experiment.METADATA, {}) if rc else {}
     obs = {
         'exception': exc,
@@ -201,8 +205,18 @@ def c_obs(o):
     raise ValueError(o)
 
 
+def rounding_hazard(obs):
+    """two DIFFERENT floating-point times closer than rounding error: the implementation orders them, the model (exact
+    rational arithmetic over the same inputs) may see them as equal - (t + 0.5) + 1.0 and t + 1.5 can differ in the last
+    bit.  Such a run is judged by the direct oracle only (which uses the times the implementation reported)."""
+    ts = sorted({float(o[2]) for o in obs.get('obs', []) if o[0] in ('posted', 'handler') and isinstance(o[2], (int, float))})
+    return any(b - a < 1e-9 * (1.0 + abs(a)) for a, b in zip(ts, ts[1:]))
+
+
 def to_coq(case, obs):
     if obs.get('skipped'):
+        return None
+    if rounding_hazard(obs):
         return None
     ok = obs['exception'] is None and obs['time'] is not None
     return ('{| c_tb := %s; c_sync := %s; c_rands := %s; c_lns := %s; c_draws := %s; o_obs := %s; '
